@@ -293,6 +293,36 @@ theorem c20_f64_to_f32_special (b : Nat) :
     rw [e22] at hlt ⊢
     omega
 
+/-- The scaled value used for f64 → f32 (`f32MagValue`, unit `2^-1074`) and the value code used
+for f16 → f32 (`codeF32`, unit `2^-200`) denote the same number for every finite non-negative
+f32 bit pattern: one notion of "value of an f32" across C20's theorems. -/
+theorem c20_f32_value_scales_agree (y : Nat) (hy : y < f32Inf) : f32MagValue y = RtenVerif.RtenHeader.codeF32 y * 2 ^ 874 := by
+  unfold f32Inf at hy
+  unfold f32MagValue RtenVerif.RtenHeader.codeF32 RtenVerif.RtenHeader.valueCode
+  simp only [Nat.shiftRight_eq_div_pow]
+  have e23 : (2 : Nat) ^ 23 = 8388608 := by decide
+  have e31 : (2 : Nat) ^ (8 + 23) = 2147483648 := by decide
+  have e8 : (2 : Nat) ^ 8 = 256 := by decide
+  have eb : (2 : Nat) ^ (8 - 1) - 1 = 127 := by decide
+  rw [e31, e23, e8, eb]
+  have hs : y / 2147483648 % 2 = 0 := by omega
+  have he : y / 8388608 % 256 = y / 8388608 := by omega
+  rw [hs, he]
+  have hne : ¬ (y / 8388608 = 256 - 1) := by omega
+  simp only [hne, if_false, Nat.zero_mul, Nat.zero_add]
+  by_cases h0 : y / 8388608 = 0
+  · simp only [h0, if_true]
+    have e1 : (200 + 1 - 127 - 23 : Nat) = 51 := by omega
+    have hp := pow_split (a := 874) (b := 925) (by omega)
+    have h51 : 925 - 874 = 51 := by omega
+    rw [h51] at hp
+    rw [e1, Nat.mul_assoc, ← hp]
+  · simp only [h0, if_false]
+    have hp := pow_split (a := 874) (b := y / 8388608 - 1 + 925) (by omega)
+    have hx : y / 8388608 - 1 + 925 - 874 = 200 + y / 8388608 - 127 - 23 := by omega
+    rw [hx] at hp
+    rw [Nat.mul_assoc, ← hp]
+
 /-- **C20.T6 (bool).** A bool constant byte / `int32_data` element becomes 0 or 1, identically in
 the loader (`!= 0`) and in the converter (numpy bool view + `astype(int32)`). -/
 theorem c20_bool_narrowing_agrees (x : Int) :
